@@ -255,9 +255,20 @@ func inspect(ctx context.Context, ref *refData, md bufmodule.ModuleData, tampere
 		side[lockObj.Name()] = lockObj.Data()
 	}
 	if sideOK && (!tampered || ref.spec.DigestType == "b4") {
-		for _, n := range []string{"buf.yaml", "buf.lock"} {
-			if !bytes.Equal(side[n], ref.side[n]) || (side[n] == nil) != (ref.side[n] == nil) {
-				return outHitWrong, fmt.Sprintf("the side object accessors returned no error but %s (%d bytes) differs from the stored one (%d bytes)", n, len(side[n]), len(ref.side[n]))
+		// names and bytes: what was stored must come back (the name is part of the b4 digest and
+		// tells buf.mod from buf.yaml)
+		for _, n := range faultx.SortedKeys(ref.side) {
+			got, ok := side[n]
+			if !ok {
+				return outHitWrong, fmt.Sprintf("the side object accessors returned no error but the stored side object %q is not served (served names: %v)", n, faultx.SortedKeys(side))
+			}
+			if !bytes.Equal(got, ref.side[n]) {
+				return outHitWrong, fmt.Sprintf("the side object accessors returned no error but %s (%d bytes) differs from the stored one (%d bytes)", n, len(got), len(ref.side[n]))
+			}
+		}
+		for _, n := range faultx.SortedKeys(side) {
+			if _, ok := ref.side[n]; !ok {
+				return outHitWrong, fmt.Sprintf("the side object accessors returned no error but serve %q, which was never stored (stored names: %v)", n, faultx.SortedKeys(ref.side))
 			}
 		}
 	}
@@ -401,7 +412,7 @@ func (h *history) close() {
 }
 
 func variantByName(s string) (faultx.Variant, bool) {
-	for _, v := range []faultx.Variant{faultx.VarError, faultx.VarShortWrite, faultx.VarCloseForwarded} {
+	for _, v := range []faultx.Variant{faultx.VarError, faultx.VarShortWrite, faultx.VarCloseForwarded, faultx.VarCloseLost} {
 		if v.String() == s {
 			return v, true
 		}
@@ -722,35 +733,41 @@ type caseStats struct {
 
 // learn stores once on a counting bucket, checks the read and returns the event log and the files
 // of the complete entry (relative to the cache dir, lock files excluded).
-func learn(ctx context.Context, c c09Case, ref *refData) ([]faultx.Event, map[string][]byte, error) {
+//
+// The fault-free store of the generated module followed by a fresh read is itself a history of
+// the property: what comes back (file names, bytes, side object names, dependency keys, digest)
+// must be what was stored. A miss / unreadable / wrong entry here is a violation, not a harness
+// failure (the harness's digest reference is validated by every case of a green run).
+func learn(ctx context.Context, c c09Case, ref *refData) ([]faultx.Event, map[string][]byte, *violation, error) {
 	h, err := newHistory(ctx, c, ref)
 	if err != nil {
-		return nil, nil, err
+		return nil, nil, nil, err
 	}
 	defer h.close()
-	if v, err := h.put(putSpec{Mode: "clean"}); err != nil || v != nil {
-		return nil, nil, fmt.Errorf("clean store: %v %v", err, v)
+	v, err := h.put(putSpec{Mode: "clean"})
+	if err != nil {
+		return nil, nil, nil, fmt.Errorf("clean store: %w", err)
+	}
+	if v != nil {
+		v.msg += "; history: " + strings.Join(h.trace, "; ")
+		return nil, nil, v, nil
 	}
 	if h.lastErr != nil {
-		return nil, nil, fmt.Errorf("clean store failed: %w", h.lastErr)
+		return nil, nil, nil, fmt.Errorf("clean store failed: %w", h.lastErr)
 	}
-	o, d, err := readFresh(ctx, h.dir, c, ref, false)
-	if err != nil {
-		return nil, nil, err
-	}
-	if o != outHitOK {
-		return nil, nil, fmt.Errorf("clean store followed by a fresh read gives %s (%s): reference digest or store is off", o, d)
+	if v, _, err := h.check(); err != nil || v != nil {
+		return nil, nil, v, err
 	}
 	snap, err := faultx.SnapshotDir(h.dir)
 	if err != nil {
-		return nil, nil, err
+		return nil, nil, nil, err
 	}
 	for p := range snap {
 		if strings.HasSuffix(p, ".lock") && !strings.Contains(p, "/v1_buf_lock/") {
 			delete(snap, p)
 		}
 	}
-	return h.lastEvents, snap, nil
+	return h.lastEvents, snap, nil, nil
 }
 
 func tamperList(c c09Case, entry map[string][]byte) []tamperSpec {
@@ -834,10 +851,17 @@ func sweepCase(ctx context.Context, c c09Case, st *caseStats, fail func(key, msg
 	if err != nil {
 		return err
 	}
-	events, entry, err := learn(ctx, c, ref)
+	events, entry, lv, err := learn(ctx, c, ref)
 	if err != nil {
 		return err
 	}
+	if lv != nil {
+		cc := c
+		cc.Steps = []step{cleanPut()}
+		fail(lv.key, lv.msg, cc)
+		return nil
+	}
+	evid.R().Class("history:fault-free-store+read/" + map[bool]string{false: "dir", true: "tar"}[c.Tar])
 	E := len(events)
 	st.E = E
 	if E < 3 {
@@ -884,7 +908,12 @@ func sweepCase(ctx context.Context, c c09Case, st *caseStats, fail func(key, msg
 	// (2) fault sweep: every single k and variant, then store again
 	for k := 0; k < E; k++ {
 		st.faultPositions++
-		for _, v := range faultx.Variants(events[k].Kind) {
+		variants := faultx.Variants(events[k].Kind)
+		if events[k].Kind == faultx.KindClose {
+			// write-behind: the data accepted by Write is lost and only Close reports it
+			variants = append(variants, faultx.VarCloseLost)
+		}
+		for _, v := range variants {
 			st.faultRuns++
 			goOn, _, err := run([]step{{Put: &putSpec{Mode: "fail", K: k, V: v.String()}}, cleanPut()})
 			if err != nil || !goOn {
@@ -1071,6 +1100,9 @@ func TestStoreHistories(t *testing.T) {
 		r.Class("digest:" + c.Module.DigestType)
 		if c.Module.BufYAML != nil || c.Module.BufLock != nil {
 			r.Class("with-v1-side-objects")
+		}
+		if c.Module.BufYAML != nil && c.Module.ConfigName() == "buf.mod" {
+			r.Class("legacy-config-name:buf.mod/" + c.Module.DigestType)
 		}
 		if len(c.Module.Deps) > 0 {
 			r.Class("with-deps")
